@@ -510,7 +510,10 @@ class Job:
         # Inform parent job, to use other_job instead.
         parent_job = self.parent_job
         assert parent_job
-        parent_job.child_jobs[parent_job.child_jobs.index(self)] = other_job
+        if self in parent_job.child_jobs:
+            parent_job.child_jobs[parent_job.child_jobs.index(self)] = other_job
+        # Otherwise, the parent job has already finished (e.g. it was rejected by a failing
+        # sibling of this job) and no longer tracks its children.
 
         # Make callbacks just as if we had gotten a cache hit.
         def then(result: Any) -> None:
